@@ -63,7 +63,8 @@ Eval(ev) ==
          [fail |-> twice \cup dupIn \cup (IF obs # exp THEN {"LossFailsAll"} ELSE {}),
           pending |-> <<>>, fifo |-> <<>>, connected |-> FALSE, issued |-> issued]
     [] ev.op = "cancel" ->
-         [fail |-> twice \cup dupIn \cup (IF obs # {<<ev.d, 1004>>} THEN {"CancelFailsThatOne"} ELSE {}),
+         (* cancelling a request that has already been answered (or failed) does nothing *)
+         [fail |-> twice \cup dupIn \cup (IF obs # (IF ev.d \in firedSet THEN {} ELSE {<<ev.d, 1004>>}) THEN {"CancelFailsThatOne"} ELSE {}),
           pending |-> pending, fifo |-> fifo, connected |-> connected, issued |-> issued]
     [] ev.op = "wrap" -> [fail |-> {}, pending |-> pending, fifo |-> fifo, connected |-> connected, issued |-> issued]
 
